@@ -8,9 +8,9 @@ ROLES = {
 BLOCKS = {("btc", "taker"): "{3, 504}", ("btc", "maker"): "{1, 1008}", ("lbtc", "taker"): "{2, 60}", ("lbtc", "maker"): "{1, 10080}"}
 
 
-def rec(name, chain, inits, steps, faults=0, crashes=0, swaps=1, adversary=False, blocks=None, side="taker", ver="current", neglimit=False, minmsat=100000000, junk=False):
+def rec(name, chain, inits, steps, faults=0, crashes=0, swaps=1, adversary=False, blocks=None, side="taker", ver="current", neglimit=False, minmsat=100000000, junk=False, legacy=False):
     return ('[name |-> "%s", chain |-> "%s", inits |-> {%s}, maxsteps |-> %d, maxfaults |-> %d, maxcrashes |-> %d, maxswaps |-> %d, '
-            'blocks |-> %s, adversary |-> %s, ver |-> "' + ver + '", neglimit |-> ' + ("TRUE" if neglimit else "FALSE") + ', minmsat |-> %d, junk |-> %s]' % (minmsat, "TRUE" if junk else "FALSE")) % (name, chain, ", ".join('"%s"' % i for i in inits), steps, faults, crashes, swaps,
+            'blocks |-> %s, adversary |-> %s, ver |-> "' + ver + '", neglimit |-> ' + ("TRUE" if neglimit else "FALSE") + ', minmsat |-> %d, junk |-> %s, legacy |-> %s]' % (minmsat, "TRUE" if junk else "FALSE", "TRUE" if legacy else "FALSE")) % (name, chain, ", ".join('"%s"' % i for i in inits), steps, faults, crashes, swaps,
                                                    blocks or BLOCKS[(chain, side)], "TRUE" if adversary else "FALSE")
 
 
@@ -42,8 +42,34 @@ def configs(tier):
     for role, (init, side) in ROLES.items():
         for ver in ("old", "none"):
             out.append(rec("%s_btc_upgrade_%s" % (role, ver), "btc", [init], 5 if deep else 4, side=side, ver=ver))
+    # C29 x crash: records a crash leaves behind (e.g. written once, without a state) are unfinished swaps too
+    for ver in ("old", "none"):
+        out.append(rec("upgrade_crash_btc_%s" % ver, "btc", ["swapout", "swapin", "swap_out_request", "swap_in_request"], 4 if deep else 3, crashes=1, blocks="{1}", ver=ver))
+    # C04 (legacy clause): a Liquid taker's stored record becomes a protocol-6 record while the node is down (in every reachable
+    # state, also after a crash with the claim payment in flight); the restarted node only follows an existing payment
+    out.append(rec("in_receiver_lbtc_legacy", "lbtc", ["swap_in_request"], 6 if deep else 5, crashes=1, side="taker", legacy=True))
+    out.append(rec("out_sender_lbtc_legacy", "lbtc", ["swapout"], 7 if deep else 5, crashes=1 if deep else 0, side="taker", legacy=True))
     out.append(rec("mixed_btc_adv", "btc", ["swapout", "swap_in_request", "swapin", "swap_out_request"], 4 if deep else 3, swaps=2,
                    adversary=True, blocks="{3}"))
+    return out
+
+
+def shards(cs, tier, n):
+    """longest-processing-time-first assignment of configurations to n TLC processes, by the state counts measured by
+    tools/measure_cfgs.py (engines/swapfsm_weights.json); unmeasured configurations count as the median"""
+    import json, os, re
+    p = os.path.join(os.path.dirname(os.path.abspath(__file__)), "swapfsm_weights.json")
+    w = (json.load(open(p)).get(tier, {}) if os.path.exists(p) else {})
+    known = sorted(v["generated"] for v in w.values() if "generated" in v) or [1]
+    med = known[len(known) // 2]
+    def weight(c):
+        v = w.get(re.search(r'name \|-> "([^"]+)"', c).group(1), {})
+        return v.get("generated", med)
+    load, out = [0] * n, [[] for _ in range(n)]
+    for c in sorted(cs, key=lambda c: -weight(c)):
+        i = load.index(min(load))
+        out[i].append(c)
+        load[i] += weight(c) + med // 4      # a constant per configuration: evaluating Init, module loading
     return out
 
 
@@ -52,7 +78,7 @@ def write(path, tier, only=None, shard=None):
     if only:
         cs = [c for c in cs if any(o in c for o in only)]
     if shard:
-        cs = cs[shard[0]::shard[1]]   # round robin: neighbouring configurations (similar cost) go to different shards
+        cs = shards(cs, tier, shard[1])[shard[0]]
     with open(path, "w") as f:
         f.write("----------------------------- MODULE PeerSwapCfgs -----------------------------\n")
         f.write("(* GENERATED (engines/swapfsm_cfgs.py, tier %s): configurations of the design model. *)\n" % tier)
